@@ -55,6 +55,12 @@ BUILDERS = {
     'Segment#1': lambda: Segment(Point(1.0, 0.0, 0.0), Point(1.0, 2.0, 2.0)),
     'HalfLine#0': lambda: HalfLine(Point(2.0, 2.0, 2.0), Vector(-1.0, -1.0, -1.0)),
     'HalfLine#1': lambda: HalfLine(Point(0.0, 1.0, 0.0), Vector(1.0, 0.0, 0.0)),
+    # unit-length directions whose first non-zero component is negative
+    'Line#2': lambda: Line(Point(2.0, 1.0, 3.0), Point(1.0, 1.0, 3.0)),
+    'HalfLine#2': lambda: HalfLine(Point(1.0, 2.0, 3.0), Vector(0.0, 0.0, -1.0)),
+    # two different coplanar triangles whose vertices differ by -1 <-> -2 (CPython hash(-1) == hash(-2))
+    'ConvexPolygon#2': lambda: lib.to_lib(X.Pg(((-1, 0, 0), (4, 0, 0), (0, 4, 0)))),
+    'ConvexPolygon#3': lambda: lib.to_lib(X.Pg(((-2, 0, 0), (4, 0, 0), (0, 4, 0)))),
     'ConvexPolygon#0': lambda: lib.to_lib(A.polygon('square')),
     'ConvexPolygon#1': lambda: lib.to_lib(A.P1(A.polygon('triangle'))),
     'ConvexPolyhedron#0': lambda: lib.to_lib(A.polyhedron('tetrahedron')),
@@ -171,7 +177,7 @@ def diff_names(pool, fresh):
 
 
 def pool_for(tier):
-    names = list(make_pool()) if tier != 'quick' else [n for n in make_pool() if n.endswith('#0') or tn(n) in ('Point', 'Segment')]
+    names = list(BUILDERS) if tier != 'quick' else [n for n in BUILDERS if n.endswith('#0') or tn(n) in ('Point', 'Segment') or n in ('Line#2', 'HalfLine#2', 'ConvexPolygon#2', 'ConvexPolygon#3')]
     return names
 
 
@@ -206,7 +212,7 @@ def _purity_job(arg):
             pool = fresh
             s0 = full_snapshot(pool)
         for q2 in qs:
-            if tier == 'quick' and not (set(q1[1:]) & set(q2[1:])):
+            if tier == 'quick' and not (set(q1[1:]) & set(q2[1:])) and not (q1[0] == q2[0] and len(q1) == 2 and len(q2) == 2):
                 continue
             pairs += 1
             run_query(pool, q1)
@@ -350,6 +356,23 @@ def arg_mutations(arg):
     return []
 
 
+def arg_battery(a):
+    """observable value and behaviour of a constructor argument."""
+    out = [repr(observable(a))]
+    if isinstance(a, Point):
+        out.append(repr([float(c) for c in a.pv()]))
+        out.append(repr(hash(a)))
+        out.append(repr(a.distance(Point(0.25, -1.0, 2.0))))
+        out.append(repr(list(lib._c(Line(a, Vector(1.0, 2.0, 3.0)).sv))))
+    elif isinstance(a, Vector):
+        out.append(repr(float(a.length())))
+        out.append(repr(hash(a)))
+    elif isinstance(a, ConvexPolygon):
+        out.append(repr(lib.canon(a)))
+        out.append(repr(round(a.area(), 9)))
+    return out
+
+
 def comp_battery(o):
     """representation-independent observation of a composite."""
     out = [('type', type(o).__name__), ('canon', lib.canon(o))]
@@ -446,6 +469,15 @@ def run_history(rname, hist):
             t_o = [t_o[i] + v[i] for i in range(3)]
             if cp is not None and observable(cp) != before_cp:
                 problems.append(('copy-changed-by-moving-the-original', ''))
+    # the caller's arguments are the caller's: unless the history mutated them (A letters) they must still
+    # look and behave like freshly made ones, whatever was done to the composite or its copies
+    touched = {ev[1] for ev in hist if ev[0] == 'A'}
+    for j, (arg, ref) in enumerate(zip(args, mkargs())):
+        if j in touched:
+            continue
+        if arg_battery(arg) != arg_battery(ref):
+            problems.append(('caller-argument-changed-by-operating-on-the-composite', 'arg %d (%s)' % (j, type(arg).__name__)))
+            break
     # final: composite equals pristine moved by t_o; copy equals pristine moved by t_c
     for label, obj, t in (('composite', comp, t_o), ('copy', cp, t_c)):
         if obj is None:
